@@ -87,6 +87,9 @@ structure Moved (st : St) (h r s : Nat) (rb hn : Blk) (rest : List Blk) (st' : S
   triesPath : ∀ b ∈ rest, b.hash ≠ h → b.sroot ∉ st'.tries
   triesPruned : ∀ b ∈ pruned st hn, b.sroot ∉ st'.tries
   triesRoot : rb.sroot ∉ st'.tries
+  /-- a trie survives unless it is the root of the old head, of a finalised ancestor or of a pruned block -/
+  triesKeep : ∀ x, x ∈ st.tries → x ≠ rb.sroot → (∀ b ∈ rest, b.hash ≠ h → b.sroot ≠ x) →
+    (∀ b ∈ pruned st hn, b.sroot ≠ x) → x ∈ st'.tries
   dbNew : ∀ b ∈ rest, findB st'.dbHdr b.hash = some b
   dbOld : ∀ x, x ∉ rest.map (·.hash) → findB st'.dbHdr x = findB st.dbHdr x
   numNew : ∀ b ∈ rest, lookupN st'.dbNum b.number = some b.hash
@@ -185,7 +188,7 @@ theorem setFinalised_cases {g : Blk} {st : St} (inv : Inv g st) (h r s : Nat) :
           simp only at hout
           rw [hout]
           refine .inr (.inr ⟨hroot, rfl, rb, hn, rest, ?_⟩)
-          refine ⟨hd.rootB, hd.headB, hd.path, hd.walk, rfl, rfl, ?_, ?_, ?_, ?_, ?_, ?_, ?_, ?_, ?_, ?_, ?_, ?_⟩
+          refine ⟨hd.rootB, hd.headB, hd.path, hd.walk, rfl, rfl, ?_, ?_, ?_, ?_, ?_, ?_, ?_, ?_, ?_, ?_, ?_, ?_, ?_⟩
           · intro x
             show findB (dropPruned s2 (pruned st hn)).unfin x = _
             rw [pd.unfinFind x]
@@ -226,6 +229,21 @@ theorem setFinalised_cases {g : Blk} {st : St} (inv : Inv g st) (h r s : Nat) :
             simp only [this, if_false]
             exact inv.treeUnfin b hbt hbroot
           · exact fun hm => (mem_triesDelete.mp hm).2 rfl
+          · intro x hx hxr hpath hpr
+            refine mem_triesDelete.mpr ⟨?_, hxr⟩
+            refine pd.triesKeep x ((hd.done.triesMem x).mpr ⟨hx, hpath⟩) ?_
+            intro b hb hdr hfb
+            -- the record found in the map for a pruned node is that node
+            have hfb' : findB st1.unfin b.hash = some hdr := hfb
+            rw [hd.done.unfinFind b.hash] at hfb'
+            by_cases hin : b.hash ∈ rest.map (·.hash)
+            · simp [hin] at hfb'
+            · simp only [hin, if_false] at hfb'
+              have hbt : b ∈ st.tree := (List.mem_filter.mp hb).1
+              have hdt := inv.unfinTree hdr (findB_some hfb').1
+              have : hdr = b := inv.tree.uniq.eq_of_hash hdt.1 hbt (findB_some hfb').2
+              rw [this]
+              exact hpr b hb
           · intro b hb
             show findB (dropPruned s2 (pruned st hn)).dbHdr b.hash = some b
             rw [pd.dbHdr]; exact hd.done.dbNew b hb
